@@ -8,6 +8,9 @@ STRONG = {'push', 'pushm', 'pushs', 'emb', 'embs', 'ins', 'insm', 'inss', 'emp',
           'rsv', 'shr', 'cct', 'rsz', 'rszv', 'rszs'}
 KMAX = 9          # throw indices tried per scenario
 
+def _l(v, k):
+    return ','.join([str(v)] * k) if k > 0 else '-'
+
 def scenarios(cfg, rng, count):
     """(setup lines, operation line) pairs: operation x position x count x grows-or-not x inline/heap state"""
     out = []
@@ -30,10 +33,10 @@ def scenarios(cfg, rng, count):
         room = (cfg.n - sz) if cfg.fl == 'fixed' else 99
         k = max(1, min(k, room)) if room > 0 else 1
         ops = [f'push 0 {v}', f'pushm 0 {v}', 'pushs 0 1', f'emb 0 {v}', 'embs 0 0', f'ins 0 {p} {v}', f'insm 0 {p} {v}', f'inss 0 {p} 1',
-               f'emp 0 {p} {v}', f'emps 0 {p} 0', f'insn 0 {p} {k} {v}', f'insns 0 {p} {k} 0', f'insr 0 {p} ' + ','.join(['7'] * k),
-               f'insn 0 {sz} {k} {v}', f'insr 0 {sz} ' + ','.join(['7'] * k), f'asn 0 {rng.randrange(0, 7) if room >= 6 else min(sz + k, cfg.n)} {v}',
-               'asr 0 ' + ','.join(['5'] * (min(sz + k, cfg.n) if cfg.fl == 'fixed' else rng.randrange(0, 7))),
-               f'rsz 0 {sz + k}', f'rszv 0 {sz + k} {v}', f'apr 0 ' + ','.join(['4'] * k), f'apn 0 {k}', f'apv 0 {k} {v}', 'cpy 0 1', 'cct 2 0',
+               f'emp 0 {p} {v}', f'emps 0 {p} 0', f'insn 0 {p} {k} {v}', f'insns 0 {p} {k} 0', f'insr 0 {p} ' + _l(7, k),
+               f'insn 0 {sz} {k} {v}', f'insr 0 {sz} ' + _l(7, k), f'asn 0 {rng.randrange(0, 7) if room >= 6 else min(sz + k, cfg.n)} {v}',
+               'asr 0 ' + _l(5, (min(sz + k, cfg.n) if cfg.fl == 'fixed' else rng.randrange(0, 7))),
+               f'rsz 0 {sz + k}', f'rszv 0 {sz + k} {v}', f'apr 0 ' + _l(4, k), f'apn 0 {k}', f'apv 0 {k} {v}', 'cpy 0 1', 'cct 2 0',
                'cct 2 1']
         if cfg.fl != 'fixed':
             ops += [f'rsv 0 {sz + 10}', 'shr 0', f'insri 0 {p} 7,8', 'apri 0 7,8,9']
